@@ -394,6 +394,8 @@ def primitive_truth(case, b, view, points, res):
         ref = model.RefModel(spec, ph)
         errs = {}
         sc = 1.0
+        if cls == "SS" and ref.amplification() > 1e3:
+            continue        # chaotic recursion: two correct evaluations differ by amplified round-off
         if cls == "DC":
             d, sch = ref.d, ref.scheme
             ref.dc_integrals()
